@@ -235,6 +235,10 @@ pub struct Interpreter {
     /// Uses ModuleExport to distinguish direct exports (with live bindings) from re-exports
     pub exports: FxHashMap<JsString, ModuleExport>,
 
+    /// Roots for the values held by `exports` (the scratch map is invisible to the
+    /// collector); cleared together with the map.
+    pub(crate) exports_guard: Guard<JsObject>,
+
     /// Call stack for stack traces
     pub call_stack: Vec<StackFrame>,
 
@@ -393,6 +397,7 @@ impl Interpreter {
     pub fn new() -> Self {
         let heap: Heap<JsObject> = Heap::new();
         let root_guard = heap.create_guard();
+        let exports_guard = heap.create_guard();
 
         // Create prototypes (all rooted)
         let object_prototype = root_guard.alloc();
@@ -485,6 +490,7 @@ impl Interpreter {
             range_error_prototype,
             syntax_error_prototype,
             exports: FxHashMap::default(),
+            exports_guard,
             call_stack: Vec::new(),
             next_generator_id: 1,
             next_symbol_id: symbol_counter,
@@ -1000,6 +1006,17 @@ impl Interpreter {
 
         let result = self.run_vm_to_completion(vm);
 
+        if matches!(&result, Ok(StepResult::Suspended { .. })) {
+            // The run is not over: the host will answer and go on with step().  Keep the
+            // module environment installed and hand the bookkeeping to the stepping
+            // machinery, exactly as prepare() would have set it up; restoring the
+            // environment here made the resumed module lose its imports and exports.
+            self.active_saved_env = saved_env;
+            self.active_module_env = module_env;
+            self.active_module_path = module_path;
+            return result;
+        }
+
         // Restore environment and finalize exports if we used a module environment
         if let (Some(saved), Some(module_env)) = (saved_env, module_env) {
             self.env = saved;
@@ -1015,6 +1032,7 @@ impl Interpreter {
         if result.is_err() {
             // Half-collected exports of a failed run must not leak into a later one
             self.exports.clear();
+            self.exports_guard.clear();
         }
 
         result
@@ -1104,6 +1122,8 @@ impl Interpreter {
 
         // Cache it by normalized path
         self.loaded_modules.insert(module_path, module_obj);
+        // the export values now live in the (rooted) namespace object
+        self.exports_guard.clear();
     }
 
     /// Run a bytecode VM to completion or suspension
@@ -1447,6 +1467,7 @@ impl Interpreter {
         self.env_guards.clear();
         self.call_stack.clear();
         self.exports.clear();
+            self.exports_guard.clear();
     }
 
     /// Prepare code for step-based execution without running it.
@@ -1815,6 +1836,7 @@ impl Interpreter {
             // The module body threw: the exports it had registered so far must not end
             // up in the namespace of the next module that is evaluated.
             self.exports.clear();
+            self.exports_guard.clear();
         }
         result?;
 
@@ -1897,6 +1919,8 @@ impl Interpreter {
 
         // Cache it by normalized path
         self.loaded_modules.insert(module_path.clone(), module_obj);
+        // the export values now live in the (rooted) namespace object
+        self.exports_guard.clear();
 
         Ok(())
     }
@@ -4163,6 +4187,7 @@ impl Interpreter {
 
         // Set up environment for execution
         let saved_env = self.env.cheap_clone();
+        let env_guard_depth = self.env_guards.len();
         self.env = func_env;
         self.push_env_guard(func_guard);
 
@@ -4200,8 +4225,9 @@ impl Interpreter {
 
         let result = vm.run(self);
 
-        // Restore environment
-        self.pop_env_guard();
+        // Restore environment.  The callee may have returned from inside nested blocks,
+        // whose scope guards are still on the stack above its own: drop them all.
+        self.env_guards.truncate(env_guard_depth);
         self.env = saved_env;
         self.call_stack.pop();
 
